@@ -45,7 +45,7 @@ class HookNotReached(Exception):
     pass
 
 
-def solve_with(pf, spy, phi, terms, default_path=False):
+def solve_with(pf, spy, phi, terms, default_path=False, allow_outside=False):
     """solvePDE observed by the spy: either through the documented externalsolver= boundary, or - default_path - with NO external
     solver, the library's own default-solver branch being executed and observed by temporarily replacing the name it resolves
     (pyfvtool.pdesolver.spsolve). A default branch that no longer calls that name leaves the spy without a record: HookNotReached
@@ -60,6 +60,11 @@ def solve_with(pf, spy, phi, terms, default_path=False):
         ret = pf.solvePDE(phi, terms)
     finally:
         ps.spsolve = spy._orig
+    if len(spy.calls) == n0 and not allow_outside:
+        # (observation from outside is only used by monitors that look at interior rows of well-conditioned systems, C12 `refresh`:
+        # with it, a refactoring that merely resolves the default solver differently - benign R9-1 - produced rounding-level alarms
+        # in C08 / C12's bit-exact clauses; everywhere else an unreached hook is INCONCLUSIVE, exit 2, never an alarm)
+        raise HookNotReached('solvePDE without an external solver did not call pyfvtool.pdesolver.spsolve')
     if len(spy.calls) == n0:
         # the default branch did not go through the name we replaced (another driver, a factorisation kept between calls, ...):
         # observe it from outside instead. The system solvePDE assembles depends on the term list and on the variable's boundary
@@ -72,8 +77,14 @@ def solve_with(pf, spy, phi, terms, default_path=False):
             pass
         if len(spy.calls) == n0:
             raise HookNotReached('solvePDE without an external solver did not call pyfvtool.pdesolver.spsolve')
-        Mc, bc, _x = spy.calls[-1]
-        spy.calls[-1] = (Mc, bc, np.array(np.asarray(phi._value, dtype=float).ravel(), copy=True))
+        # the interior values are the default branch's answer; the ghost unknowns are taken from the solution of the recorded system
+        # (the variable reports RE-IMPOSED boundary values, which are not the solver's unknowns: on a periodic seam with unequal
+        # end cells they do not even satisfy the periodic rows - the known C03 finding - and must not leak into other checks)
+        Mc, bc, x_t = spy.calls[-1]
+        x_obs = np.array(x_t, dtype=float, copy=True)
+        rows_ = interior_index(tuple(int(n_) for n_ in phi.domain.dims))
+        x_obs[rows_] = np.asarray(phi.value, dtype=float).ravel()
+        spy.calls[-1] = (Mc, bc, x_obs)
         spy.observed_from_outside = getattr(spy, 'observed_from_outside', 0) + 1
     return ret
 
